@@ -26,7 +26,9 @@ def is_exact(d):
 
 
 Z_PARSERS = [TimeRecurrenceParser(TimePointParser(assumed_time_zone=(0, 0), dump_format=f_), DurationParser())
-             for f_ in ("CCYY-MM-DDThh:mm:ssZ", "CCYYMMDDThhmmssZ")]
+             for f_ in ("CCYY-MM-DDThh:mm:ssZ", "CCYYMMDDThhmmssZ",
+                        # ... or a fixed UTC offset written into the format (negative sub-hour ones included)
+                        "CCYY-MM-DDThh:mm:ss-00:30", "CCYYMMDDThhmmss-0045", "CCYY-MM-DDThh:mm:ss+05:30", "CCYY-DDDThh:mm:ss-03:30")]
 _PARSE_ALL = TimeRecurrenceParser(TimePointParser(num_expanded_year_digits=2, assumed_time_zone=(0, 0)), DurationParser())
 
 
@@ -49,16 +51,48 @@ def parseable(desc):
                and ((0 <= p["y"] <= 9999) if not p.get("xd") else abs(p["y"]) <= 999999) for p in pts)
 
 
+def dur_by_arith(d):
+    """The interval as the RESULT of Duration arithmetic on operands that have been used before (hashed, compared, measured):
+    d = (d less one unit of one component) + (that unit)."""
+    ks = [k for k, v in d.items() if isinstance(v, int) and v != 0]
+    if not ks or any(not isinstance(v, int) for v in d.values()) or "w" in d:
+        return mk_dur(d)
+    k = ks[len(ks) // 2]
+    sg = 1 if d[k] > 0 else -1
+    d1 = {kk: vv for kk, vv in d.items() if kk != k or vv != sg}
+    if k in d1:
+        d1[k] = d[k] - sg
+    p1, p2 = mk_dur(d1 or {"s": 0}), mk_dur({k: sg})
+    for p in (p1, p2):
+        hash(p), p == p2, bool(p), p.get_seconds(), p < p2
+    return p1 + p2
+
+
 def build(desc):
     if desc.get("via") == "parse":        # one parser object for the whole process, across calendar-mode switches
         return _PARSE_ALL.parse(rec_text(desc))
     n = desc["n"] or None
     a = mk_tp(desc["a"])
+    mkd = dur_by_arith if desc.get("dvia") == "arith" else mk_dur
     if desc["fmt"] == 1:
-        return TimeRecurrence(repetitions=n, start_point=a, end_point=mk_tp(desc["s"]))
-    if desc["fmt"] == 3:
-        return TimeRecurrence(repetitions=n, start_point=a, duration=mk_dur(desc["d"]))
-    return TimeRecurrence(repetitions=n, duration=mk_dur(desc["d"]), end_point=a)
+        r = TimeRecurrence(repetitions=n, start_point=a, end_point=mk_tp(desc["s"]))
+    elif desc["fmt"] == 3:
+        r = TimeRecurrence(repetitions=n, start_point=a, duration=mkd(desc["d"]))
+    else:
+        r = TimeRecurrence(repetitions=n, duration=mkd(desc["d"]), end_point=a)
+    if desc.get("pre") == "overlap":
+        # earlier passes over the same object, two of them alive at once (nested loops, a suspended iterator, a look-ahead zip):
+        # what a later pass yields must not depend on them
+        from itertools import islice
+        lim = (desc["n"] or 4) + 2
+        it1 = iter(r)
+        next(it1, None)
+        list(islice(iter(r), lim))
+        list(islice(it1, lim))
+        for _p in islice(iter(r), 2):
+            for _q in islice(iter(r), 3):
+                pass
+    return r
 
 
 def inp_of(desc, r):
